@@ -325,3 +325,12 @@ package ast
 //@   opt nosafety
 //@   ensures result != nil ==> len(result) == len(args) && (forall i int :: 0 <= i && i < len(args) ==> result[i] == modeOf(args[i]))
 //@   loop 1 invariant len(mode) == rangeindex + 1 && (forall i int :: 0 <= i && i < rangeindex + 1 ==> mode[i] == modeOf(args[i]))
+
+// ---- C08: two tuples of constants are equal exactly when they have the same length and are equal position by position --
+//@ func EqualsConstants(left, right)
+//@   modifies nothing
+//@   requires forall k int :: 0 <= k && k < len(left) ==> wfC(left[k])
+//@   requires forall k int :: 0 <= k && k < len(right) ==> wfC(right[k])
+//@   ensures result == (len(left) == len(right) && (forall k int :: 0 <= k && k < len(left) ==> eqC(left[k], right[k])))
+//@   loop 1 invariant 0 <= i && i <= len(left) && len(left) == len(right)
+//@   loop 1 invariant forall k int :: 0 <= k && k < i ==> eqC(left[k], right[k])
